@@ -1,9 +1,9 @@
 import Props.Gen16m
 import Props.GenT16v
-import Props.Clean
+import Generated.Facts
 
 /-
-  C16 and C01 end to end on translated code: from the terminal size `main`'s poller reads to the
+  C16 end to end on translated code: from the terminal size `main`'s poller reads to the
   bytes `printRaw` writes.  Everything between is code translated from the source on every run:
   the poller's round and the key loop's round (`GenMain.pollStep`, `GenMain.keyStep`),
   `(*State).SetWidthHeight` (`GenMain.SetWidthHeight`), `(*State).view` (`GenView.view`,
@@ -17,10 +17,7 @@ import Props.Clean
     drawn from a state whose size is exactly `(w, h)`.
   * `frames_after_poll_fit`: hence (`GenT16v.view_height`) for `h ≥ 2` each such frame has exactly
     `h` lines, and `printRaw` writes it as the clear-screen prefix and `h - 1` CR LF pairs.
-  * `terminal_gets_frame_and_cr`: what reaches the terminal for a clean frame (C01: `Cells.Clean`)
-    is the fixed prefix and a text that, with its carriage returns removed, IS the frame — every
-    carriage return standing directly before a line feed; so it is safe text in the sense of C01
-    once the two fixed sequences and the CRs are set aside.
+  (What `printRaw` does to a clean frame, C01: `Props/GenT01m.lean`.)
 -/
 
 namespace GenT16m
@@ -31,6 +28,13 @@ open Go.Term Gen16m
 def SizeKept (upd : GenView.State → Nat → GenView.State × List GenView.State) : Prop :=
   ∀ s b, (upd s b).1.width = s.width ∧ (upd s b).1.height = s.height ∧
     ∀ d ∈ (upd s b).2, d.width = s.width ∧ d.height = s.height
+
+/-- What `SizeKept` rests on, read from the source on every run: in the skeleton of ui/ui.go
+    (`Generated/Facts.lean`: every function and goroutine literal with the fields of the state it
+    reads and writes) `SetWidthHeight` is the only one that assigns `s.width` or `s.height`. -/
+theorem only_setWidthHeight_writes_size :
+    ∀ p ∈ Generated.uiSkeleton, ("wr s.width" ∈ p.2 ∨ "wr s.height" ∈ p.2) → p.1 = "SetWidthHeight" := by
+  decide
 
 /-- The interface state with the TRANSLATED `SetWidthHeight` (it never panics: `setWidthHeight_eq`). -/
 def iface (upd : GenView.State → Nat → GenView.State × List GenView.State) : Iface GenView.State where
@@ -166,35 +170,6 @@ theorem frames_after_poll_fit (c : Colors) (ctx : Int)
   have hcount : (Str.countNL frame : Int) = got.height - 1 := by
     rw [← hh]; simp only [Ansi.height]; omega
   exact ⟨frame, t, hv, hh, ht, by rw [hp]; exact hcount, by rw [hnl]; exact hcount⟩
-
-/-- A clean frame has no carriage return in it. -/
-theorem clean_no_cr (s : Str) (h : Cells.Clean s) : '\r' ∉ s := by
-  exact Gen16mP.clean_no_cr s h
-
-/-- **C01 at the terminal.**  What `printRaw` writes for a clean frame is the two fixed sequences
-    and a text `t` that is the frame with carriage returns added: removing them gives the frame
-    back (so what is left is clean, hence safe, text), and each of them stands directly before a
-    line feed. -/
-theorem terminal_gets_frame_and_cr (frame : Str) (h : Cells.Clean frame) :
-    ∃ t, GenMain.printRaw none frame = .ok [Act.write (Main.home ++ Main.clear ++ t)] ∧
-      t.filter (· ≠ '\r') = frame ∧
-      Safe.safe (t.filter (· ≠ '\r')) = true ∧
-      ∀ a b, t = a ++ '\r' :: b → b.head? = some '\n' := by
-  have hcr := clean_no_cr frame h
-  refine ⟨Main.crlf frame, by rw [printRaw_eq]; rfl, crlf_strip frame hcr, ?_,
-    fun a b hs => crlf_cr_before_lf frame hcr a b hs⟩
-  rw [crlf_strip frame hcr]
-  exact CleanProps.clean_safe frame h
-
-/-- The only control characters of what is written for a clean frame, beyond those of the frame
-    itself (line feeds, the ESC of its SGR sequences), are carriage returns and the ESCs of the two
-    fixed sequences. -/
-theorem terminal_controls (frame : Str) (h : Cells.Clean frame) :
-    ∃ t, GenMain.printRaw none frame = .ok [Act.write (Main.home ++ Main.clear ++ t)] ∧
-      ∀ ch ∈ t, ch = '\r' ∨ ch ∈ frame := by
-  -- cleanness is not needed here: this holds for every frame
-  have _ := h
-  exact ⟨Main.crlf frame, by rw [printRaw_eq]; rfl, fun ch hch => Gen16mP.crlf_mem frame ch hch⟩
 
 /-! ### Non-vacuity: a history, its frames, what is written -/
 
